@@ -4,6 +4,7 @@ package props
 
 import (
 	"context"
+	"encoding/json"
 	"fmt"
 	"testing"
 
@@ -89,7 +90,8 @@ func execC35(t *testing.T, c C35Case) *Verdict {
 	cfg := incrBubbleCfg(&c.Sched, &gworld{}, 100000)
 	cfg.Guards = nil
 	out := sim.RunBubble(t, cfg, []sim.Client{client}, nil)
-	st.Case(fmt.Sprintf("%v|%v|%v|%d|%d", c.WL.Files, c.Roots, c.Steps, c.Par, out.TraceHash), nontrivial || len(c.Steps) > 1)
+	stepsJSON, _ := json.Marshal(c.Steps)
+	st.Case(fmt.Sprintf("%v|%v|%s|%d|%d", c.WL.Files, c.Roots, stepsJSON, c.Par, out.TraceHash), nontrivial || len(c.Steps) > 1)
 	if hv := hangVerdict("C35", out); hv != nil {
 		return hv
 	}
